@@ -27,6 +27,10 @@ type chanInfo struct {
 	other []chanSite // any other use (passed to unknown code, len, cap, ...)
 }
 
+// signal: a channel nothing is ever sent on: it only tells its receivers "closed" (a stop / done signal). It carries no data
+// of the producer/workers/collector pipeline, so the pipeline rules ignore it; CC10 proves it is closed at most once.
+func (ci *chanInfo) signal() bool { return len(ci.send) == 0 }
+
 type wgInfo struct {
 	alloc ssa.Value
 	alias map[ssa.Value]bool
@@ -132,6 +136,9 @@ func (c *Ctx) hashTopology() *hashTopo {
 	}
 	// roles
 	for _, ci := range t.chans {
+		if ci.signal() {
+			continue
+		}
 		recvInSpawner, sentInSpawner := false, false
 		for _, s := range ci.recv {
 			if s.fn == t.fn {
@@ -335,7 +342,13 @@ func (t *hashTopo) describe(r *rule) {
 // requireTopology: producer -> jobs -> workers -> results -> collector, one wait group. Anything else is undecided.
 func (t *hashTopo) requireTopology(r *rule) bool {
 	c := t.c
-	if t.jobs == nil || t.results == nil || len(t.workers) == 0 || len(t.wgs) != 1 || len(t.chans) != 2 {
+	nData := 0
+	for _, ci := range t.chans {
+		if !ci.signal() {
+			nData++
+		}
+	}
+	if t.jobs == nil || t.results == nil || len(t.workers) == 0 || len(t.wgs) != 1 || nData != 2 {
 		r.undecided(fname(t.fn)+" topology", c.pos(t.fn.Pos()), fmt.Sprintf("the goroutine topology is not the understood producer/jobs/workers/results/collector shape (channels=%d, wait groups=%d, workers=%d)", len(t.chans), len(t.wgs), len(t.workers)))
 		return false
 	}
@@ -540,9 +553,48 @@ func ruleCC2(c *Ctx) *rule {
 // whose value slices to err before the iteration ends.
 func (t *hashTopo) errSentOnAllPaths(fi *fnInfo, errv ssa.Value) (bool, string) {
 	c := t.c
-	isSendOfErr := func(in ssa.Instruction) bool {
+	// the error-typed values stored into the fields of the struct that a send transmits; they are followed along the
+	// path (which operand a phi took), so "carries the error" means the error obtained on this path, not on another one
+	errFieldVals := map[*ssa.Send][]ssa.Value{}
+	for _, b := range fi.fn.Blocks {
+		for _, in := range b.Instrs {
+			s, ok := in.(*ssa.Send)
+			if !ok || !t.results.alias[s.Chan] {
+				continue
+			}
+			for _, o := range origins(s.X) {
+				u, ok := o.(*ssa.UnOp)
+				if !ok || u.Op != token.MUL {
+					continue
+				}
+				for _, ref := range valueReferrers(u.X) {
+					fa, ok := ref.(*ssa.FieldAddr)
+					if !ok || !isErrorType(fa.Type().Underlying().(*types.Pointer).Elem()) {
+						continue
+					}
+					for _, rr := range valueReferrers(fa) {
+						if st, ok := rr.(*ssa.Store); ok && st.Addr == ssa.Value(fa) {
+							errFieldVals[s] = append(errFieldVals[s], st.Val)
+							registerControlValue(st.Val, s)
+						}
+					}
+				}
+			}
+		}
+	}
+	isSendOfErr := func(in ssa.Instruction, ps *pathState) bool {
 		s, ok := in.(*ssa.Send)
 		if !ok || !t.results.alias[s.Chan] {
+			return false
+		}
+		if vals := errFieldVals[s]; len(vals) > 0 && ps != nil {
+			for _, v := range vals {
+				sl := c.newSlicer()
+				sl.depth = 0
+				if sl.run(ps.resolve(v)).has(errv) {
+					return true
+				}
+			}
 			return false
 		}
 		sl := c.newSlicer()
@@ -571,7 +623,7 @@ func (t *hashTopo) errSentOnAllPaths(fi *fnInfo, errv ssa.Value) (bool, string) 
 				seen[k] = true
 			}
 			for _, in := range b.Instrs[idx:] {
-				if isSendOfErr(in) {
+				if isSendOfErr(in, ps) {
 					return
 				}
 			}
@@ -920,6 +972,165 @@ func ruleCC5(c *Ctx) *rule {
 		}
 	}
 	return r
+}
+
+// activatedOnce: fn runs at most once per call of the spawner: it is the spawner, or all its activations (call, go, defer,
+// sync.Once.Do) add up to one site outside every loop in a function that itself runs at most once.
+func (t *hashTopo) activatedOnce(fn *ssa.Function, seen map[*ssa.Function]bool) (bool, string) {
+	c := t.c
+	if fn == t.fn {
+		return true, ""
+	}
+	if seen[fn] {
+		return false, fname(fn) + " is recursive"
+	}
+	seen[fn] = true
+	sites := c.callersOf(fn)
+	if len(sites) == 0 {
+		return false, "no activation of " + fname(fn) + " was found"
+	}
+	n := 0
+	for _, site := range sites {
+		parent := site.Parent()
+		if !inModule(parent) {
+			if pn := fname(parent); strings.Contains(pn, "sync.Once") {
+				n++
+				continue
+			}
+			return false, fname(fn) + " is called from " + fname(parent)
+		}
+		if l := c.info(parent).innermostLoop(site.Block()); l != nil {
+			return false, fmt.Sprintf("%s is started inside the loop at %s (%s)", fname(fn), c.bpos(l.header), c.ipos(site))
+		}
+		if ok, why := t.activatedOnce(parent, seen); !ok {
+			return false, why
+		}
+		n++
+	}
+	if n > 1 {
+		return false, fmt.Sprintf("%s has %d activation sites", fname(fn), n)
+	}
+	return true, ""
+}
+
+func ruleCC10(c *Ctx) *rule {
+	r := &rule{ID: "CC10", Engine: "E2+E5", Floor: 2,
+		Statement: "every close of a channel made by Hash is executed at most once per call: one close site per channel, outside every loop (or on a way out of it), in a function that is itself activated once (not in a goroutine started per worker, not in a helper called per result)",
+		Necessity: "closing a closed channel panics and takes the whole process down: a close that can run once per failing file, per worker or per result does so as soon as two of them occur"}
+	t := c.hashTopology()
+	t.describe(r)
+	nSig := 0
+	for i, ci := range t.chans {
+		name := fmt.Sprintf("channel#%d", i+1)
+		if ci == t.jobs {
+			name = "jobs"
+		} else if ci == t.results {
+			name = "results"
+		} else if ci.signal() {
+			nSig++
+			name = fmt.Sprintf("signal#%d", nSig)
+		}
+		key := fmt.Sprintf("%s close(%s) at most once", fname(t.fn), name)
+		if len(ci.close) == 0 {
+			if ci.signal() && len(ci.recv) > 0 {
+				r.ok(key, c.ipos(ci.mk), "never closed (receivers are in selects with other cases)")
+			}
+			continue
+		}
+		if len(ci.close) > 1 {
+			var at []string
+			for _, s := range ci.close {
+				at = append(at, c.ipos(s.instr))
+			}
+			r.bad(key, c.ipos(ci.mk), fmt.Sprintf("the channel has %d close sites (%s): when two of them run the second panics", len(ci.close), strings.Join(at, ", ")))
+			continue
+		}
+		s := ci.close[0]
+		fi := c.info(s.fn)
+		if _, isDefer := s.instr.(*ssa.Defer); !isDefer {
+			if l := fi.innermostLoop(s.instr.Block()); l != nil && reachFromInstr(s.instr)[s.instr.Block()] && !closeGuardedByFlag(fi, l, s.instr) {
+				r.bad(key, c.ipos(s.instr), fmt.Sprintf("the close sits in the loop at %s and can be reached again on a later iteration: the second close panics", c.bpos(l.header)))
+				continue
+			}
+		} else if l := fi.innermostLoop(s.instr.Block()); l != nil {
+			r.bad(key, c.ipos(s.instr), fmt.Sprintf("the close is deferred inside the loop at %s: one deferred close per iteration", c.bpos(l.header)))
+			continue
+		}
+		if ok, why := t.activatedOnce(s.fn, map[*ssa.Function]bool{}); !ok {
+			r.bad(key, c.ipos(s.instr), "the function containing the close can run more than once per Hash call: "+why)
+			continue
+		}
+		r.ok(key, c.ipos(s.instr), "one close site, outside loops, in "+fname(s.fn)+" which is activated once")
+	}
+	return r
+}
+
+// closeGuardedByFlag: the close inside loop l is guarded by `!flag` where flag is a loop-carried boolean that is true on
+// every way back to the header that passes the close.
+func closeGuardedByFlag(fi *fnInfo, l *loopInfo, cl ssa.Instruction) bool {
+	for _, g := range fi.necessaryGuards(cl.Block()) {
+		p, ok := g.cond.(*ssa.Phi)
+		if !ok || g.pol || p.Block() != l.header {
+			continue
+		}
+		after := reachFromInstr(cl)
+		after[cl.Block()] = true
+		good := true
+		var check func(v ssa.Value, from *ssa.BasicBlock, depth int) bool
+		check = func(v ssa.Value, from *ssa.BasicBlock, depth int) bool {
+			if b, isC := constBool(v); isC {
+				return b
+			}
+			m, isPhi := v.(*ssa.Phi)
+			if !isPhi || depth > 4 || m == p {
+				return false
+			}
+			for i, pred := range m.Block().Preds {
+				if !l.body[pred] || !passesThrough(cl.Block(), pred, l) {
+					continue
+				}
+				if !check(m.Edges[i], pred, depth+1) {
+					return false
+				}
+			}
+			return true
+		}
+		for i, pred := range l.header.Preds {
+			if !l.body[pred] || !passesThrough(cl.Block(), pred, l) {
+				continue
+			}
+			if !check(p.Edges[i], pred, 0) {
+				good = false
+			}
+		}
+		if good {
+			return true
+		}
+	}
+	return false
+}
+
+// passesThrough: inside loop l, block `to` can be reached from block `via` without going through the header.
+func passesThrough(via, to *ssa.BasicBlock, l *loopInfo) bool {
+	seen := map[*ssa.BasicBlock]bool{}
+	work := []*ssa.BasicBlock{via}
+	for len(work) > 0 {
+		b := work[len(work)-1]
+		work = work[:len(work)-1]
+		if b == to {
+			return true
+		}
+		if seen[b] {
+			continue
+		}
+		seen[b] = true
+		for _, s := range b.Succs {
+			if s != l.header && l.body[s] {
+				work = append(work, s)
+			}
+		}
+	}
+	return false
 }
 
 func ruleCC6(c *Ctx) *rule {
@@ -1586,6 +1797,42 @@ func ruleHS2(c *Ctx) *rule {
 	}
 	// collector side: accumulated element slices to both fields of the received result
 	loop, accs := t.collectorAccumulators()
+	if loop != nil {
+		// the items of different files must be kept apart until they are hashed together: no arithmetic fold
+		for _, b := range t.fn.Blocks {
+			if !loop.body[b] {
+				continue
+			}
+			for _, in := range b.Instrs {
+				bo, ok := in.(*ssa.BinOp)
+				if !ok {
+					continue
+				}
+				switch bo.Op {
+				case token.XOR, token.ADD, token.SUB, token.OR, token.AND, token.MUL, token.AND_NOT:
+				default:
+					continue
+				}
+				if bt, ok := bo.Type().Underlying().(*types.Basic); !ok || bt.Info()&types.IsInteger == 0 {
+					continue
+				}
+				fs := c.newSlicer()
+				fs.depth = 0
+				fs.objFlow = true
+				fres := fs.run(bo.X, bo.Y)
+				if fres.hasField(prefix+hashField) || fres.hasField(prefix+fileField) {
+					r.bad(fmt.Sprintf("%s items folded arithmetically", fname(t.fn)), c.ipos(bo),
+						"the per-file items are folded into the accumulator with the operator "+bo.Op.String()+": different collections of files give the same accumulator (items cancel or collide), so a change can leave the digest unchanged")
+				}
+			}
+		}
+	}
+	nAcc := 0
+	defer func() {
+		if loop != nil && nAcc == 0 && r.violated() == 0 {
+			r.undecided(fname(t.fn)+" item accumulator", c.bpos(loop.header), "the collector loop has no slice of byte slices that accumulates one element per received result")
+		}
+	}()
 	for _, acc := range accs {
 		if loop == nil {
 			break
@@ -1611,6 +1858,7 @@ func ruleHS2(c *Ctx) *rule {
 		if sl, ok := acc.Type().Underlying().(*types.Slice); !ok || !isByteSlice(sl.Elem()) {
 			continue
 		}
+		nAcc++
 		sl := c.newSlicer()
 		sl.depth = 0
 		res := sl.run(appended...)
@@ -1916,6 +2164,6 @@ func hashProperties() []*propertySpec {
 			Explanation: "Schedules and fault sequences are covered by shape conditions on the fixed producer/jobs/workers/results/collector topology recovered from the SSA form: CC1 (no dereference of a value whose paired error is non-nil or discarded), CC2 (every worker error is sent on all paths), CC3 (nil-error return guarded by the received errors), CC4 (Done deferred at entry, Add(1) before each go in the same iteration), CC5 (single close of jobs by the sole producer after the last send on every path; close of results after Wait), CC6 (receive loops leave only on channel-closed), CC7 (no shared writable memory), CC8 (>= 1 worker). CC4-CC8 together with HS3 are sufficient for deadlock-, leak- and race-freedom of this topology under any schedule: every worker terminates iff jobs is closed and drained; jobs is closed after finitely many sends, each of which is matched because >= 1 worker loops until closed; each worker's sends are matched because the collector drains until closed; results is closed exactly when all workers are done. A different topology makes the check undecided, not green.",
 			NotCovered:  []string{"panics inside the standard library", "liveness if the file system blocks a read forever"},
 			Assumptions: trusted,
-			Rules:       []func(*Ctx) *rule{ruleCC1, ruleCC2, ruleCC3, ruleCC4, ruleCC5, ruleCC6, ruleCC7, ruleHS4("CC8"), ruleCC9}},
+			Rules:       []func(*Ctx) *rule{ruleCC1, ruleCC2, ruleCC3, ruleCC4, ruleCC5, ruleCC6, ruleCC7, ruleHS4("CC8"), ruleCC9, ruleCC10}},
 	}
 }
